@@ -1,6 +1,7 @@
 package main
 
 import (
+	"bytes"
 	"encoding/json"
 	"math/rand"
 	"sort"
@@ -8,6 +9,8 @@ import (
 	"github.com/canopy-network/canopy/fsm"
 	"github.com/canopy-network/canopy/lib"
 	"github.com/canopy-network/canopy/store"
+	"google.golang.org/protobuf/encoding/protowire"
+	"google.golang.org/protobuf/proto"
 )
 
 // gate mode (specs/CertificateDef.tla, property C02): certificate cases are materialised with real BLS keys, real blocks
@@ -203,8 +206,21 @@ func (w *gateWorld) run(c gateCase, out *json.Encoder) (accepted bool) {
 	qc := w.qcFor(c.cert)
 	qc.Signature = &lib.AggregateSignature{Signature: sig, Bitmap: bitmap}
 	qc.Block = w.p.block
-	if c.ablock != 0 {
+	if c.ablock == 1 {
 		qc.Block = w.p2.block
+	}
+	if c.ablock == 2 { // the certified block's own bytes followed by a second occurrence of the header field: the raw first occurrence
+		// still hashes to the certified hash, the decoded block (occurrences merged) is another block with a self-consistent hash
+		blk := new(lib.Block)
+		_ = lib.Unmarshal(w.p.block, blk)
+		over := &lib.BlockHeader{StateRoot: bytes.Repeat([]byte{0x5a}, 32)}
+		merged := proto.Clone(blk.BlockHeader).(*lib.BlockHeader)
+		proto.Merge(merged, over)
+		over.Hash, _ = merged.SetHash()
+		ob, _ := lib.Marshal(over)
+		raw := append([]byte{}, w.p.block...)
+		raw = protowire.AppendTag(raw, 1, protowire.BytesType)
+		qc.Block = protowire.AppendBytes(raw, ob)
 	}
 	qc.Results = w.p.results
 	if c.aresults != 0 {
@@ -290,6 +306,10 @@ func deviate(c gateCase, rng *rand.Rand, all bool) []gateCase {
 	d.dev += "+attachedBlock"
 	out = append(out, d)
 	d = c.clone()
+	d.ablock = 2
+	d.dev += "+attachedBlockMergedHeader"
+	out = append(out, d)
+	d = c.clone()
 	d.aresults = 1
 	d.dev += "+attachedResults"
 	out = append(out, d)
@@ -343,6 +363,13 @@ func gateMode(seed int64, budget int, out *json.Encoder) error {
 			base := gateCase{signedBy: s, sigs: s, bitmap: s, signed: zeroFields(), cert: zeroFields(), dev: "honest"}
 			if err := try(base); err != nil {
 				return err
+			}
+			if w.quorum(s) { // always: a genuinely certified block in a non-canonical encoding that decodes to another block
+				d := base.clone()
+				d.ablock, d.dev = 2, "honest+attachedBlockMergedHeader"
+				if err := try(d); err != nil {
+					return err
+				}
 			}
 			d1 := deviate(base, rng, false)
 			for i, c := range d1 {
